@@ -19,6 +19,8 @@ func main() {
 		regionMain(os.Args[2:])
 	case "feat":
 		featMain(os.Args[2:])
+	case "alpha":
+		alphaMain(os.Args[2:])
 	default:
 		fmt.Fprintf(os.Stderr, "unknown driver %q\n", os.Args[1])
 		os.Exit(2)
